@@ -189,7 +189,7 @@ pub fn run_c11(tier: Tier) -> ! {
                     apps: 0,
                 };
                 let depth = tier.pick(4, 7);
-                cfgs.push((format!("TS{ts} sit{situation} P=Tsl/{div}"), cfg, depth, tier.pick(5.0, 300.0), tier.pick(150_000, 4_000_000)));
+                cfgs.push((format!("TS{ts} sit{situation} P=Tsl/{div}"), cfg, depth, tier.pick(5.0, 90.0), tier.pick(150_000, 3_000_000)));
             }
         }
     }
@@ -259,7 +259,7 @@ pub fn run_c05(tier: Tier) -> ! {
                     apps,
                 };
                 let depth = tier.pick(3, 6);
-                cfgs.push((format!("TS{ts} HSA{hsa} G{g} sit{situation} apps{apps}"), cfg, depth, tier.pick(20.0, 300.0), tier.pick(400_000, 5_000_000)));
+                cfgs.push((format!("TS{ts} HSA{hsa} G{g} sit{situation} apps{apps}"), cfg, depth, tier.pick(20.0, 45.0), tier.pick(400_000, 2_000_000)));
             }
         }
     }
@@ -294,7 +294,7 @@ pub fn run_c05(tier: Tier) -> ! {
                     2 => tier.pick(5, 12),
                     _ => tier.pick(5, 10),
                 };
-                plans.push(w4props::Plan { label: format!("dp {n}p diagbuf={diag_buf} operate={operate}"), cfg, depth, max_states: tier.pick(100_000, 3_000_000), secs: tier.pick(20.0, 300.0) });
+                plans.push(w4props::Plan { label: format!("dp {n}p diagbuf={diag_buf} operate={operate}"), cfg, depth, max_states: tier.pick(100_000, 3_000_000), secs: tier.pick(20.0, 120.0) });
             }
         }
     }
